@@ -86,11 +86,11 @@ Qed.
 
 (* ---------------------------------------------------------------- get_task_delay, cron branch *)
 
+Lemma fields_in_ranges t : in_ranges (fields_of t).
+Proof. pose proof (fields_ranges t) as H. cbv zeta in H. unfold in_ranges. lia. Qed.
+
 Section Due.
   Variable tzoff : nat -> Z -> Z.
-
-  Lemma fields_in_ranges t : in_ranges (fields_of t).
-  Proof. pose proof (fields_ranges t) as H. cbv zeta in H. unfold in_ranges. lia. Qed.
 
   Lemma due_iff e off now : wf_expr e = true ->
     (cron_due tzoff e off now = true <->
@@ -131,3 +131,128 @@ End Due.
 Lemma utc_default_iff tzoff e now : wf_expr e = true ->
   (cron_due tzoff e NoOffset now = true <-> Matches e (fields_of (floor_minute now))).
 Proof. intros H. rewrite (due_iff tzoff e NoOffset now H). cbn [shift]. rewrite Z.add_0_r. reflexivity. Qed.
+
+(* ---------------------------------------------------------------- set expansion = matcher *)
+
+Lemma upfrom_In fuel : forall a s b v, 1 <= s ->
+  (In v (upfrom fuel a s b) <-> exists k, (k < fuel)%nat /\ v = a + Z.of_nat k * s /\ v <= b).
+Proof.
+  induction fuel as [| f IH]; intros a s b v Hs; cbn [upfrom].
+  - split; [intros [] | intros (k & Hk & _); lia].
+  - destruct (a <=? b) eqn:E.
+    + cbn [In]. rewrite (IH (a + s) s b v Hs). split.
+      * intros [<- | (k & Hk & Hv & Hb)].
+        -- exists 0%nat. split; [lia|]. split; lia.
+        -- exists (S k). split; [lia|]. split; [|assumption]. rewrite Nat2Z.inj_succ. lia.
+      * intros (k & Hk & Hv & Hb). destruct k as [| k].
+        -- left. lia.
+        -- right. exists k. split; [lia|]. split; [|assumption]. rewrite Nat2Z.inj_succ in Hv. lia.
+    + split; [intros [] |]. intros (k & Hk & Hv & Hb).
+      assert (0 <= Z.of_nat k * s) by (apply Z.mul_nonneg_nonneg; lia). lia.
+Qed.
+
+Lemma memZ_In v l : memZ v l = true <-> In v l.
+Proof.
+  unfold memZ. rewrite existsb_exists. split.
+  - intros (x & Hin & Hx). apply Z.eqb_eq in Hx. subst. assumption.
+  - intros H. exists v. split; [assumption | apply Z.eqb_refl].
+Qed.
+
+Lemma bool_eq_iff (a b : bool) : (a = true <-> b = true) -> a = b.
+Proof. destruct a, b; intuition congruence. Qed.
+
+Lemma expand_item_spec lo hi it v : 0 <= lo -> lo <= v <= hi -> wf_item it = true ->
+  (In v (expand_item lo hi it) <-> match_item it v = true).
+Proof.
+  intros Hlo Hv Hwf. destruct it as [a | a b | a b s]; cbn [expand_item match_item wf_item] in *.
+  - destruct ((lo <=? a) && (a <=? hi)) eqn:E; cbn [In]; lia.
+  - rewrite upfrom_In by lia. split.
+    + intros (k & Hk & Hv' & Hb). lia.
+    + intros H. exists (Z.to_nat (v - Z.max a lo)). lia.
+  - assert (Hs : 1 <= s) by lia. rewrite filter_In, upfrom_In by lia. split.
+    + intros ((k & Hk & Hv' & Hb) & Hl).
+      assert (0 <= Z.of_nat k * s) by (apply Z.mul_nonneg_nonneg; lia).
+      assert ((v - a) mod s = 0).
+      { replace (v - a) with (Z.of_nat k * s) by lia. apply Z.mod_mul. lia. }
+      lia.
+    + intros H. assert (Hr : a <= v <= b) by lia. assert (Hm : (v - a) mod s = 0) by lia.
+      apply (mod_zero_iff (v - a) s Hs ltac:(lia)) in Hm. destruct Hm as (k & Hk & Hk').
+      split; [|lia]. exists (Z.to_nat k). rewrite Z2Nat.id by lia.
+      assert (k <= k * s) by nia. lia.
+Qed.
+
+Lemma expand_field_spec lo hi f v : 0 <= lo -> lo <= v <= hi -> wf_field f = true ->
+  memZ v (expand_field lo hi f) = match_field lo f v.
+Proof.
+  intros Hlo Hv Hwf. apply bool_eq_iff. rewrite memZ_In.
+  destruct f as [| n | l]; cbn [expand_field match_field wf_field] in *.
+  - rewrite upfrom_In by lia. split; [reflexivity|]. intros _. exists (Z.to_nat (v - lo)). lia.
+  - assert (Hn : 1 <= n) by lia. rewrite upfrom_In by lia. split.
+    + intros (k & Hk & Hv' & Hb).
+      assert ((v - lo) mod n = 0).
+      { replace (v - lo) with (Z.of_nat k * n) by lia. apply Z.mod_mul. lia. }
+      lia.
+    + intros H. assert (Hm : (v - lo) mod n = 0) by lia.
+      apply (mod_zero_iff (v - lo) n Hn ltac:(lia)) in Hm. destruct Hm as (k & Hk & Hk').
+      exists (Z.to_nat k). rewrite Z2Nat.id by lia. assert (k <= k * n) by nia. lia.
+  - rewrite in_flat_map, existsb_exists. rewrite forallb_forall in Hwf.
+    split; intros (it & Hin & H); exists it; (split; [assumption|]);
+      apply (expand_item_spec lo hi it v Hlo Hv (Hwf it Hin)); assumption.
+Qed.
+
+Definition in_full_ranges (fl : fields) : Prop :=
+  0 <= f_minute fl <= 59 /\ 0 <= f_hour fl <= 23 /\ 1 <= f_dom fl <= 31 /\ 1 <= f_month fl <= 12 /\
+  0 <= f_dow fl <= 6.
+
+Lemma spec_due_matches e fl : wf_expr e = true -> in_full_ranges fl -> spec_due e fl = matches_b e fl.
+Proof.
+  intros Hwf (R1 & R2 & R3 & R4 & R5).
+  destruct (wf_expr_fields e Hwf) as (W1 & W2 & W3 & W4 & W5).
+  unfold spec_due, matches_b, day_rule. cbv zeta.
+  rewrite (expand_field_spec 0 59 _ _ ltac:(lia) R1 W1), (expand_field_spec 0 23 _ _ ltac:(lia) R2 W2),
+    (expand_field_spec 1 12 _ _ ltac:(lia) R4 W4), (expand_field_spec 1 31 _ _ ltac:(lia) R3 W3),
+    (expand_field_spec 0 6 _ _ ltac:(lia) R5 W5).
+  destruct (has_star (e_dom e)), (has_star (e_dow e)); reflexivity.
+Qed.
+
+Lemma fields_in_full_ranges t : in_full_ranges (fields_of t).
+Proof. pose proof (fields_ranges t) as H. cbv zeta in H. unfold in_full_ranges. tauto. Qed.
+
+(* the Boolean form evaluated on implementation observations is the statement *)
+Lemma check_is_statement e sh now obs : wf_expr e = true ->
+  (C13_check e sh now obs = true <->
+   (obs = Some 0 /\ Matches e (fields_of (floor_minute (now + sh)))) \/
+   (obs = None /\ ~ Matches e (fields_of (floor_minute (now + sh))))).
+Proof.
+  intros Hwf. unfold C13_check.
+  rewrite (spec_due_matches e _ Hwf (fields_in_full_ranges (now + sh))).
+  rewrite fields_floor_minute.
+  pose proof (matches_spec e (fields_of (now + sh)) Hwf (fields_in_ranges (now + sh))) as HM.
+  destruct obs as [d |].
+  - rewrite andb_true_iff, Z.eqb_eq, HM. split.
+    + intros [-> H]. left. auto.
+    + intros [[E H] | [E _]]; [|discriminate]. inversion E. auto.
+  - rewrite negb_true_iff. split.
+    + intros H. right. split; [reflexivity|]. rewrite <- HM. congruence.
+    + intros [[E _] | [_ H]]; [discriminate|]. rewrite <- HM in H. destruct (matches_b e _); congruence.
+Qed.
+
+Lemma model_meets_check tzoff e off now : wf_expr e = true ->
+  C13_check e (shift tzoff off now) now (cron_delay tzoff e off now) = true.
+Proof.
+  intros Hwf. unfold C13_check, cron_delay, cron_due.
+  rewrite (spec_due_matches e _ Hwf (fields_in_full_ranges _)).
+  destruct (matches_b e _) eqn:E; cbn; rewrite ?E; reflexivity.
+Qed.
+
+(* read on the calendar: whenever the shifted clock shows y-m-d h:mi (any second), the schedule is due
+   iff the expression matches that civil minute, the weekday being Zeller's congruence of the date *)
+Lemma due_at_civil tzoff e off now y m d h mi s : wf_expr e = true ->
+  1 <= m <= 12 -> 1 <= d <= days_in_month y m -> 0 <= h <= 23 -> 0 <= mi <= 59 -> 0 <= s < MIN ->
+  now + shift tzoff off now = (days_from_civil y m d * 1440 + h * 60 + mi) * MIN + s ->
+  (cron_due tzoff e off now = true <-> Matches e (mkF mi h d m (weekday_of_civil y m d) y)).
+Proof.
+  intros Hwf Hm Hd Hh Hmi Hs Hnow. unfold cron_due. rewrite Hnow.
+  rewrite (fields_of_civil y m d h mi s Hm Hd Hh Hmi Hs).
+  apply matches_spec; [assumption|]. unfold in_ranges. cbn. unfold weekday_of_civil. lia.
+Qed.
